@@ -654,3 +654,104 @@ Proof.
   destruct H2 as (tr & E1 & E2 & _). rewrite E1.
   unfold set_sr, set_trans, upd; cbn. repeat split; auto.
 Qed.
+
+(* ================= a new leader starts every transfer afresh (repair of the stale cursor) ================= *)
+(* become_leader up to, and excluding, its final send loop(s) *)
+Definition become_leader_pre (e : env) (s : S) : S :=
+  let s := upd (fun n => n <| leader := self n |>) s in
+  let s := set_role LEADER s in
+  let s := upd (fun n => n <| last_resp := [] |>) s in
+  let now := tnow s in
+  let s := upd (fun n =>
+     fold_left (fun n x => n <| next_idx := aset x (last_idx (log n) + 1) (next_idx n) |>
+                             <| match_idx := aset x 0 (match_idx n) |>
+                             <| last_resp := aset x now (last_resp n) |>
+                             <| sr := (sr n) <| trans := adel x (trans (sr n)) |> |>)
+               (sunion (others n) (readonly n)) n) s in
+  upd (fun n => let idx := last_idx (log n) + 1 in
+                (log_add (mkEntry (noop_cmd (noop_pk (cf e))) idx (term n)) n) <| noop_idx := Some idx |>) s.
+
+Lemma become_leader_split : forall e s,
+  become_leader e s = ((if use_batch (cf e) then (fun s => s) else send_ae e) ;; send_ae e) (become_leader_pre e s).
+Proof. reflexivity. Qed.
+
+Lemma cancel_fold : forall now (l : list nid) (n : node),
+  asorted (trans (sr n)) ->
+  let n' := fold_left (fun n x => n <| next_idx := aset x (last_idx (log n) + 1) (next_idx n) |>
+                                    <| match_idx := aset x 0 (match_idx n) |>
+                                    <| last_resp := aset x now (last_resp n) |>
+                                    <| sr := (sr n) <| trans := adel x (trans (sr n)) |> |>) l n in
+  asorted (trans (sr n')) /\
+  (forall x, In x l -> aget x (trans (sr n')) = None) /\
+  (forall x, aget x (trans (sr n)) = None -> aget x (trans (sr n')) = None) /\
+  pid (sr n') = pid (sr n) /\ stored (sr n') = stored (sr n) /\ incoming (sr n') = incoming (sr n).
+Proof.
+  intros now l. induction l as [|y l IH]; intros n Hs; cbn [fold_left].
+  - repeat split; auto. intros x [].
+  - set (n1 := n <| next_idx := aset y (last_idx (log n) + 1) (next_idx n) |>
+                 <| match_idx := aset y 0 (match_idx n) |>
+                 <| last_resp := aset y now (last_resp n) |>
+                 <| sr := (sr n) <| trans := adel y (trans (sr n)) |> |>).
+    assert (H1 : trans (sr n1) = adel y (trans (sr n)) /\ pid (sr n1) = pid (sr n) /\
+                 stored (sr n1) = stored (sr n) /\ incoming (sr n1) = incoming (sr n)) by (subst n1; cbn; auto).
+    destruct H1 as (T1 & T2 & T3 & T4).
+    assert (Hs1 : asorted (trans (sr n1))) by (rewrite T1; apply asorted_adel; exact Hs).
+    destruct (IH n1 Hs1) as (I1 & I2 & I3 & I4 & I5 & I6).
+    split; [exact I1|]. split; [|split; [|repeat split; congruence]].
+    + intros x [Hx|Hx]; [|apply I2; exact Hx]. subst x. apply I3. rewrite T1. apply aget_adel_same. exact Hs.
+    + intros x Hx. apply I3. rewrite T1.
+      destruct (N.eq_dec y x) as [->|Hne]; [apply aget_adel_same; exact Hs|].
+      rewrite aget_adel_other by exact Hne. exact Hx.
+Qed.
+
+(* C09_become_leader_cancels_transmissions *)
+Lemma become_leader_cancels : forall e s x,
+  asorted (trans (sr (nd s))) ->
+  In x (sunion (others (nd s)) (readonly (nd s))) ->
+  let s1 := become_leader_pre e s in
+  aget x (trans (sr (nd s1))) = None /\ asorted (trans (sr (nd s1))) /\
+  pid (sr (nd s1)) = pid (sr (nd s)) /\ stored (sr (nd s1)) = stored (sr (nd s)) /\
+  forall b, pid (sr (nd s)) = 0 -> stored (sr (nd s)) = Some b ->
+    snd (get_transmission e x s1) =
+      SData b 0 (N.min (chunk (cf e)) (blob_len b)) true (N.min (chunk (cf e)) (blob_len b) =? 0).
+Proof.
+  intros e s x Hs Hx. cbv zeta. unfold become_leader_pre.
+  set (s0 := upd (fun n => n <| last_resp := [] |>) (set_role LEADER (upd (fun n => n <| leader := self n |>) s))).
+  assert (H0 : sr (nd s0) = sr (nd s) /\ others (nd s0) = others (nd s) /\ readonly (nd s0) = readonly (nd s)).
+  { subst s0. unfold set_role, upd, emit. destruct (_ =? _); cbn; auto. }
+  destruct H0 as (Z1 & Z2 & Z3).
+  assert (Hs0 : asorted (trans (sr (nd s0)))) by (rewrite Z1; exact Hs).
+  pose proof (cancel_fold (tnow s0) (sunion (others (nd s0)) (readonly (nd s0))) (nd s0) Hs0) as Hf.
+  cbv zeta in Hf. destruct Hf as (F1 & F2 & F3 & F4 & F5 & F6).
+  rewrite Z2, Z3 in F2.
+  unfold upd, log_add. cbn [nd].
+  match goal with |- aget x (trans (sr ?nn)) = None /\ _ =>
+    assert (Hn : sr nn = sr (fold_left (fun n x0 => n <| next_idx := aset x0 (last_idx (log n) + 1) (next_idx n) |>
+                                    <| match_idx := aset x0 0 (match_idx n) |>
+                                    <| last_resp := aset x0 (tnow s0) (last_resp n) |>
+                                    <| sr := (sr n) <| trans := adel x0 (trans (sr n)) |> |>)
+                      (sunion (others (nd s0)) (readonly (nd s0))) (nd s0))) by reflexivity
+  end.
+  rewrite Hn. rewrite Z2, Z3 in *.
+  split; [apply F2; exact Hx|]. split; [exact F1|]. split; [congruence|]. split; [congruence|].
+  intros b Hp Hb.
+  match goal with |- snd (get_transmission e x ?sx) = _ => set (S1 := sx) end.
+  assert (Hsr1 : sr (nd S1) = sr (fold_left (fun n x0 => n <| next_idx := aset x0 (last_idx (log n) + 1) (next_idx n) |>
+                                    <| match_idx := aset x0 0 (match_idx n) |>
+                                    <| last_resp := aset x0 (tnow s0) (last_resp n) |>
+                                    <| sr := (sr n) <| trans := adel x0 (trans (sr n)) |> |>)
+                      (sunion (others (nd s)) (readonly (nd s))) (nd s0))) by (subst S1; rewrite <- Z2, <- Z3; reflexivity).
+  assert (Hc : cursor S1 x = Some (b, 0)).
+  { unfold cursor. rewrite Hsr1, (F2 x Hx), F5, Z1, Hb. reflexivity. }
+  assert (Hp1 : pid (sr (nd S1)) = 0) by (rewrite Hsr1, F4, Z1; exact Hp).
+  rewrite (get_transmission_step e x S1 b 0 Hp1 Hc). cbn [snd]. rewrite N.sub_0_r. reflexivity.
+Qed.
+
+(* handling another destination does not create a cursor for x *)
+Lemma get_transmission_other : forall e y x s, y <> x -> aget x (trans (sr (nd s))) = None ->
+  aget x (trans (sr (nd (fst (get_transmission e y s))))) = None.
+Proof.
+  intros e y x s Hne Hx. unfold get_transmission. destruct (negb _); auto.
+  destruct (match aget y (trans (sr (nd s))) with Some t => Some t | None => _ end) as [[b off]|]; auto.
+  cbn. destruct (_ =? 0); [rewrite aget_adel_other by exact Hne | rewrite aget_aset_other by exact Hne]; exact Hx.
+Qed.
